@@ -412,7 +412,14 @@ def offsets_for(t, tier, rng, sample):
         by = {}
         for i in range(n):
             by.setdefault(t.classes[i][0], []).append(i)
+        # a fixed base sample per class (the same for every seed, so that the set of classes in which
+        # the unchanged tree shows its known payload findings does not depend on the seed) + seeded extras
+        import random as _random
+        base = _random.Random(0xC17)
         for c in sorted(by):
+            fixed = list(by[c])
+            base.shuffle(fixed)
+            keep.update(fixed[:24])
             rng.shuffle(by[c])
             keep.update(by[c][:max(4, sample // 5)])
         return sorted(keep)
